@@ -18,6 +18,9 @@
 //		     w    ::= v | (f BITS) | (d) | (h (w w)*) | (t xHEX) | (bin xHEX) | (mk xTYPE w*)
 //		   out: value-in-type | value-outside-type | reported <CODE> | fault | bad-receiver
 //
+//		coerce <ty | (alias ty)> <v>         (model + implementation) types.CoerceTo: instance test, one Optional removed, Array /
+//		       Hash / Struct element-wise, else new(type, value); out as newm
+//
 //	  @newc <spec> (args w*)               (implementation only) new on a constrained Struct/Hash/Tuple/Array receiver given as a
 //	       specification; the result is checked by px.IsInstance AND member by member against the spec (newc.go)
 //
@@ -122,7 +125,7 @@ func tyOf(e sx.Sexp) *ty {
 			t.strs = append(t.strs, s.MustStr())
 		}
 		return t
-	case "arr", "opt":
+	case "arr", "opt", "nu":
 		if len(a) != 1 {
 			panic(fmt.Errorf("bad type %s", e))
 		}
@@ -214,6 +217,8 @@ func (t *ty) src(env map[string]*ty, depth int) string {
 		return "Array[" + t.kids[0].src(env, depth) + "]"
 	case "opt":
 		return "Optional[" + t.kids[0].src(env, depth) + "]"
+	case "nu":
+		return "NotUndef[" + t.kids[0].src(env, depth) + "]"
 	case "tuple":
 		ks := make([]string, len(t.kids))
 		for i, k := range t.kids {
@@ -833,23 +838,6 @@ func execNewM(c px.Context, args []sx.Sexp) core.Result {
 	if len(args) != 2 || args[1].Tag() != "args" {
 		return core.Result{Out: "bad-op", Pred: "FAIL harness-bad-op newm"}
 	}
-	var src string
-	var contained string
-	if args[0].Tag() == "init" {
-		ia := args[0].Args()
-		switch len(ia) {
-		case 0:
-			src = "Init"
-		case 1:
-			contained = tyOf(ia[0]).src(nil, 0)
-			src = "Init[" + contained + "]"
-		default:
-			return core.Result{Out: "bad-op", Pred: "FAIL harness-bad-op newm receiver"}
-		}
-	} else {
-		src = tyOf(args[0]).src(nil, 0)
-		contained = src
-	}
 	var vals []px.Value
 	for _, e := range args[1].Args() {
 		switch e.Tag() {
@@ -860,13 +848,9 @@ func execNewM(c px.Context, args []sx.Sexp) core.Result {
 		vals = append(vals, valOf(c, e))
 	}
 	var typ, expected px.Type
-	if o := safely(func() {
-		typ = c.ParseType(src)
-		if contained != "" {
-			expected = c.ParseType(contained)
-		}
-	}); o != "" {
-		return core.Result{Out: "bad-op", Pred: "FAIL harness-bad-op receiver does not parse: " + src}
+	var src, contained string
+	if o := safely(func() { typ, expected, src, contained = newmRecvOf(c, args[0]) }); o != "" || typ == nil {
+		return core.Result{Out: "bad-op", Pred: "FAIL harness-bad-op receiver does not parse: " + args[0].String()}
 	}
 	var r px.Value
 	out := safely(func() { r = px.New(c, typ, vals...) })
@@ -885,6 +869,101 @@ func execNewM(c px.Context, args []sx.Sexp) core.Result {
 	default:
 		res.Out = out
 		res.Pred = fmt.Sprintf("FAIL new-fault-%s %s.new ended in %s instead of a value or a reported error", typ.Name(), src, out)
+	}
+	return res
+}
+
+// newmTypeOf: the type a receiver term denotes; `(alias T)` is a type alias built with the public constructor (it has a
+// name of its own under which no constructor is registered), everything else is parsed from its Puppet text
+func newmTypeOf(c px.Context, e sx.Sexp) (px.Type, string) {
+	if e.Tag() == "alias" {
+		a := e.Args()
+		if len(a) != 1 {
+			panic(fmt.Errorf("bad alias %s", e))
+		}
+		inner, src := newmTypeOf(c, a[0])
+		return types.NewTypeAliasType("B4Alias", nil, inner), "B4Alias=" + src
+	}
+	src := tyOf(e).src(nil, 0)
+	return c.ParseType(src), src
+}
+
+// newmRecvOf: recv ::= ty | (alias ty) | (init) | (init recv-type v*) — the receiver, the type the result must be an
+// instance of (nil for the default Init) and their texts.  Init[T] without init arguments goes through the type parser,
+// with init arguments (or around an alias) through types.NewInitType
+func newmRecvOf(c px.Context, e sx.Sexp) (typ, expected px.Type, src, contained string) {
+	if e.Tag() != "init" {
+		typ, src = newmTypeOf(c, e)
+		return typ, typ, src, src
+	}
+	ia := e.Args()
+	if len(ia) == 0 {
+		return c.ParseType("Init"), nil, "Init", ""
+	}
+	expected, contained = newmTypeOf(c, ia[0])
+	if len(ia) == 1 && ia[0].Tag() != "alias" {
+		src = "Init[" + contained + "]"
+		return c.ParseType(src), expected, src, contained
+	}
+	var initArgs []px.Value
+	for _, a := range ia[1:] {
+		switch a.Tag() {
+		case "i", "s", "b", "u", "a", "d", "h", "f":
+		default:
+			panic(fmt.Errorf("bad init argument %s", a))
+		}
+		initArgs = append(initArgs, valOf(c, a))
+	}
+	src = "Init[" + contained + ",…]"
+	var it *types.InitType
+	if len(initArgs) == 0 {
+		it = types.NewInitType(expected, nil)
+	} else {
+		it = types.NewInitType(expected, types.WrapValues(initArgs))
+	}
+	return it, expected, src, contained
+}
+
+// execCoerce: `coerce <ty | (alias ty)> <v>` — types.CoerceTo on the alphabet; the result value is compared with the model
+// and must be an instance of the REQUESTED type
+func execCoerce(c px.Context, args []sx.Sexp) core.Result {
+	if len(args) != 2 {
+		return core.Result{Out: "bad-op", Pred: "FAIL harness-bad-op coerce"}
+	}
+	switch args[1].Tag() {
+	case "i", "s", "b", "u", "a", "d", "h", "f":
+	default:
+		return core.Result{Out: "bad-op", Pred: "FAIL harness-bad-op value"}
+	}
+	v := valOf(c, args[1])
+	var typ px.Type
+	var src string
+	if o := safely(func() { typ, src = newmTypeOf(c, args[0]) }); o != "" || typ == nil {
+		return core.Result{Out: "bad-op", Pred: "FAIL harness-bad-op type does not parse: " + args[0].String()}
+	}
+	var r px.Value
+	out := safely(func() { r = types.CoerceTo(c, "x", typ, v) })
+	res := core.Result{Pred: "ok", NonTrivial: true, Tags: []string{"coerce.type=" + typ.Name()}}
+	switch {
+	case out == "":
+		res.Out = "value " + alphaStr(r)
+		in := false
+		if o2 := safely(func() { in = px.IsInstance(typ, r) }); o2 != "" || !in {
+			res.Pred = fmt.Sprintf("FAIL coerce-outside-type CoerceTo(%s, %s) returned %s which is not an instance of the type", src, short(v), short(r))
+		}
+		same := false
+		safely(func() { same = r.Equals(v, nil) })
+		if same {
+			res.Tags = append(res.Tags, "coerce.out=unchanged")
+		} else {
+			res.Tags = append(res.Tags, "coerce.out=converted")
+		}
+	case strings.HasPrefix(out, "reported "):
+		res.Out = out
+		res.Tags = append(res.Tags, "coerce.out="+strings.Replace(out, " ", ":", -1))
+	default:
+		res.Out = out
+		res.Pred = fmt.Sprintf("FAIL coerce-fault CoerceTo(%s, %s) ended in %s instead of a value or a reported error", src, short(v), out)
 	}
 	return res
 }
@@ -952,6 +1031,8 @@ func exec(c px.Context, op string, args []sx.Sexp) (res core.Result) {
 		return execNewM(c, args)
 	case "newc":
 		return execNewC(c, args)
+	case "coerce":
+		return execCoerce(c, args)
 	}
 	return core.Result{Out: "bad-op", Pred: "FAIL harness-bad-op " + op}
 }
